@@ -436,6 +436,111 @@ def C02_transpose_pair_family():
 ALL["C02_transpose_pair_family"] = C02_transpose_pair_family
 
 
+# --------------------------------------------------------------------------- T4..T7 transposes around Add forests / elementwise DAGs
+def C02_transpose_dag_family():
+    """Graphs in which several Transpose(p1) feed a DAG of elementwise nodes whose results pass through Transpose(p2):
+    chains of 1..3 unary ops from one source, binary joins of two branches (same source / two sources / a third
+    transposed source joined later), Add chains and Add forests with fan-out, unary ops between the adds, scalar and
+    full-tensor constant side operands; p2 the inverse of p1 or not; ranks 3 and 4 with pairwise different extents;
+    an intermediate optionally a graph output or read by a second consumer; two output transposes.  Run through
+    remove_redundant_transpose_add_forests_ir followed by remove_redundant_transpose_pairs_ir (the order of the
+    pipeline) and through each alone: no graph output may change and no declaration may be false."""
+    from onnx import helper, TensorProto, numpy_helper
+    rng = np.random.default_rng(5)
+    n = 0
+
+    def build(shape, p1, p2, body, variant):
+        """body: list of (op, [operand names], out) over the names a,b,c (transposed sources) and earlier outs; last out feeds T2"""
+        shape_t = [shape[i] for i in p1]
+        nodes, vis, inits = [], [], []
+        srcs = sorted({x for _, ins, _ in body for x in ins if x in ("a", "b", "c")})
+        for sname in srcs:
+            nodes.append(helper.make_node("Transpose", [f"x{sname}"], [sname], perm=list(p1), name=f"t_{sname}"))
+            vis.append(helper.make_tensor_value_info(sname, TensorProto.FLOAT, shape_t))
+        for k, (op, ins, out) in enumerate(body):
+            real_ins = []
+            for x in ins:
+                if x == "s":      # scalar constant
+                    nm = f"s{k}"
+                    inits.append(numpy_helper.from_array(np.asarray(0.75, np.float32), nm))
+                    real_ins.append(nm)
+                elif x == "k":    # full constant in the transposed layout
+                    nm = f"k{k}"
+                    inits.append(numpy_helper.from_array(rng.standard_normal(shape_t).astype(np.float32), nm))
+                    real_ins.append(nm)
+                else:
+                    real_ins.append(x)
+            nodes.append(helper.make_node(op, real_ins, [out], name=f"n{k}"))
+            vis.append(helper.make_tensor_value_info(out, TensorProto.FLOAT, shape_t))
+        last = body[-1][2]
+        out_shape = [shape_t[i] for i in p2]
+        nodes.append(helper.make_node("Transpose", [last], ["t2o"], perm=list(p2), name="t2"))
+        nodes.append(helper.make_node("Neg", ["t2o"], ["y"], name="tail"))
+        vis.append(helper.make_tensor_value_info("t2o", TensorProto.FLOAT, out_shape))
+        outs = [helper.make_tensor_value_info("y", TensorProto.FLOAT, out_shape)]
+        first = body[0][2]
+        if variant == "first_is_output":
+            outs.append(helper.make_tensor_value_info(first, TensorProto.FLOAT, shape_t))
+        elif variant == "first_second_consumer":
+            nodes.append(helper.make_node("Abs", [first], ["z"], name="abs2"))
+            outs.append(helper.make_tensor_value_info("z", TensorProto.FLOAT, shape_t))
+        elif variant == "two_output_transposes":
+            nodes.append(helper.make_node("Transpose", [last], ["t3o"], perm=list(p2), name="t3"))
+            nodes.append(helper.make_node("Abs", ["t3o"], ["z"], name="abs3"))
+            outs.append(helper.make_tensor_value_info("z", TensorProto.FLOAT, out_shape))
+        elif variant == "source_transpose_is_output":
+            outs.append(helper.make_tensor_value_info("a", TensorProto.FLOAT, shape_t))
+        g_in = [helper.make_tensor_value_info(f"x{sname}", TensorProto.FLOAT, list(shape)) for sname in srcs]
+        g = helper.make_graph(nodes, "g", g_in, outs, initializer=inits, value_info=vis)
+        m = helper.make_model(g, opset_imports=[helper.make_opsetid("", 21)])
+        m.ir_version = 10
+        feeds = {f"x{sname}": rng.standard_normal(shape).astype(np.float32) for sname in srcs}
+        return m, feeds
+
+    bodies = [
+        [("Relu", ["a"], "o0")],
+        [("Relu", ["a"], "o0"), ("Exp", ["o0"], "o1")],
+        [("Abs", ["a"], "o0"), ("Neg", ["o0"], "o1"), ("Tanh", ["o1"], "o2")],
+        [("Add", ["a", "s"], "o0"), ("Relu", ["o0"], "o1")],
+        [("Relu", ["a"], "o0"), ("Sigmoid", ["a"], "o1"), ("Mul", ["o0", "o1"], "o2")],
+        [("Add", ["a", "b"], "o0")],
+        [("Add", ["a", "b"], "o0"), ("Abs", ["o0"], "o1"), ("Exp", ["o1"], "o2")],
+        [("Relu", ["a"], "o0"), ("Sigmoid", ["b"], "o1"), ("Mul", ["o0", "o1"], "o2")],
+        [("Mul", ["a", "s"], "o0"), ("Add", ["o0", "b"], "o1")],
+        [("Add", ["a", "b"], "o0"), ("Add", ["o0", "c"], "o1")],
+        [("Add", ["a", "b"], "o0"), ("Add", ["o0", "c"], "o1"), ("Add", ["o1", "a"], "o2")],
+        [("Add", ["a", "b"], "o0"), ("Add", ["o0", "c"], "o1"), ("Add", ["o0", "o1"], "o2")],
+        [("Add", ["a", "b"], "o0"), ("Relu", ["o0"], "o1"), ("Add", ["o1", "c"], "o2")],
+        [("Add", ["a", "k"], "o0"), ("Relu", ["o0"], "o1")],
+        [("Max", ["a", "b"], "o0"), ("Relu", ["o0"], "o1")],
+        [("Sub", ["a", "b"], "o0"), ("Div", ["o0", "s"], "o1"), ("Mul", ["o1", "c"], "o2")],
+    ]
+    perms = [((2, 3, 4), (1, 2, 0), (2, 0, 1)), ((2, 3, 4), (0, 2, 1), (0, 2, 1)), ((2, 3, 4), (1, 2, 0), (1, 2, 0)),
+             ((2, 3, 4, 5), (0, 2, 3, 1), (0, 3, 1, 2)), ((2, 3, 4, 5), (0, 3, 1, 2), (0, 2, 3, 1))]
+
+    def pipeline(irm):
+        from jax2onnx.converter import ir_optimizations as opt
+        opt.remove_redundant_transpose_add_forests_ir(irm.graph)
+        opt.remove_redundant_transpose_pairs_ir(irm.graph)
+
+    for shape, p1, p2 in perms:
+        for body in bodies:
+            for variant in ("plain", "first_is_output", "first_second_consumer", "two_output_transposes", "source_transpose_is_output"):
+                if len(shape) == 4 and variant not in ("plain", "first_is_output"):
+                    continue
+                for runner, rname in ((pipeline, "forests+pairs"), (_single("remove_redundant_transpose_pairs_ir"), "pairs"), (_single("remove_redundant_transpose_add_forests_ir"), "forests")):
+                    m, feeds = build(shape, p1, p2, body, variant)
+                    what = f"{[f'{op}{ins}' for op, ins, _ in body]} between Transpose{list(p1)} and Transpose{list(p2)} [{variant}] on {list(shape)} through {rname}"
+                    ok, detail = check_pass(m, runner, feeds, what)
+                    if ok is False:
+                        return False, detail
+                    n += 1 if ok else 0
+    return True, f"{n} transpose-DAG graphs unchanged and truthfully annotated"
+
+
+ALL["C02_transpose_dag_family"] = C02_transpose_dag_family
+
+
 # --------------------------------------------------------------------------- T10 reshape pairs
 def C02_reshape_pair_family():
     """Reshape(x -> mid) -> k elementwise ops (k = 0, 1, 2; side operands: rank-0 scalar, size-1 constants of rank 1..3,
@@ -500,3 +605,66 @@ def C02_reshape_pair_family():
 
 
 ALL["C02_reshape_pair_family"] = C02_reshape_pair_family
+
+
+# --------------------------------------------------------------------------- C05 custom input/output names
+def C05_custom_names_family():
+    """user_interface._resolve_positional_inputs / _apply_custom_io_names_on_ir on top graphs with n = 1..13 positional
+    inputs named as the binder names them (in_<i>, or in_<i>_nchw for a random subset), listed in the graph in order,
+    reversed or shuffled, mixed with non-positional inputs (materialised parameters): the i-th custom input name must
+    land on the input that carries positional index i, the j-th output name on output j, every other value keeps its
+    name, and colliding / duplicated names must raise."""
+    import random
+    import onnx_ir as ir
+    from jax2onnx import user_interface as ui
+    rnd = random.Random(3)
+    n_cases = 0
+    for n in list(range(1, 14)):
+        for order in ("in_order", "reversed", "shuffled"):
+            for with_params in (False, True):
+                nchw = {i for i in range(n) if rnd.random() < 0.3}
+                names = [f"in_{i}_nchw" if i in nchw else f"in_{i}" for i in range(n)]
+                vals = {i: ir.Value(name=names[i], type=ir.TensorType(ir.DataType.FLOAT), shape=ir.Shape([2, i + 1])) for i in range(n)}
+                listed = [vals[i] for i in range(n)]
+                if order == "reversed":
+                    listed = listed[::-1]
+                elif order == "shuffled":
+                    rnd.shuffle(listed)
+                extra = [ir.Value(name=f"param_{k}", type=ir.TensorType(ir.DataType.FLOAT), shape=ir.Shape([3])) for k in range(2)] if with_params else []
+                inputs = listed + extra if order != "reversed" else extra + listed
+                nodes, outs = [], []
+                for i in range(min(n, 3)):
+                    o = ir.Value(name=f"y_{i}", type=ir.TensorType(ir.DataType.FLOAT), shape=ir.Shape([2, i + 1]))
+                    nodes.append(ir.Node("", "Relu", [vals[i]], outputs=[o], name=f"relu_{i}"))
+                    outs.append(o)
+                g = ir.Graph(inputs, outs, nodes=nodes, name="g", opset_imports={"": 21})
+                got = ui._resolve_positional_inputs(g, n)
+                if len(got) != n or any(got[i] is not vals[i] for i in range(n)):
+                    return False, f"_resolve_positional_inputs with {n} positional inputs listed {order} (params={with_params}): position {[i for i in range(n) if i >= len(got) or got[i] is not vals[i]][0]} resolves to `{got[[i for i in range(n) if i >= len(got) or got[i] is not vals[i]][0]].name if got else None}`"
+                m = ir.Model(g, ir_version=10)
+                in_names = [f"arg{i}" for i in range(n)]
+                out_names = [f"res{j}" for j in range(len(outs))]
+                ui._apply_custom_io_names_on_ir(m, input_names=in_names, output_names=out_names, positional_input_count=n)
+                if any(vals[i].name != in_names[i] for i in range(n)):
+                    bad = [i for i in range(n) if vals[i].name != in_names[i]][0]
+                    return False, f"custom input names on {n} inputs listed {order}: positional argument {bad} is named `{vals[bad].name}` instead of `{in_names[bad]}`"
+                if any(o.name != out_names[j] for j, o in enumerate(outs)) or any(e.name != f"param_{k}" for k, e in enumerate(extra)):
+                    return False, f"custom output names / untouched parameter names wrong for {n} inputs listed {order}"
+                n_cases += 1
+    # loud failures: duplicate names, collision with another value's name
+    for bad_names, why in ((["a", "a"], "duplicate"), (["y_0", "b"], "collision with an existing value name")):
+        v0, v1 = (ir.Value(name=f"in_{i}", type=ir.TensorType(ir.DataType.FLOAT), shape=ir.Shape([2])) for i in range(2))
+        o = ir.Value(name="y_0", type=ir.TensorType(ir.DataType.FLOAT), shape=ir.Shape([2]))
+        mid = ir.Value(name="y_0" if False else "mid", type=ir.TensorType(ir.DataType.FLOAT), shape=ir.Shape([2]))
+        g = ir.Graph([v0, v1], [o], nodes=[ir.Node("", "Add", [v0, v1], outputs=[mid]), ir.Node("", "Relu", [mid], outputs=[o])], name="g", opset_imports={"": 21})
+        m = ir.Model(g, ir_version=10)
+        try:
+            ui._apply_custom_io_names_on_ir(m, input_names=(bad_names if why == "duplicate" else ["mid", "b"]), output_names=None, positional_input_count=2)
+            return False, f"custom names with a {why} were accepted silently"
+        except ValueError:
+            pass
+        n_cases += 1
+    return True, f"{n_cases} naming cases consistent"
+
+
+ALL["C05_custom_names_family"] = C05_custom_names_family
